@@ -8,6 +8,7 @@
 import VC2.Proofs.Picture
 import VC2.Props.C11
 import VC2.Props.C01
+import VC2.Model.Pipeline
 namespace VC2.Props.C09
 open VC2 VC2.Model.Picture VC2.Proofs.Picture
 
@@ -25,6 +26,19 @@ theorem output_sample_in_range (d : Nat) (hd : 1 ≤ d) (x : Int) :
 theorem pad_removal_shape (a : VC2.Model.Wavelet.Arr) (h w : Nat) (hh : h ≤ a.h) (hw : w ≤ a.w) :
     (VC2.Model.Wavelet.padRemoval a h w).h = h ∧ (VC2.Model.Wavelet.padRemoval a h w).w = w := by
   simp [VC2.Model.Wavelet.padRemoval]; omega
+
+/-- **the composed decoder half**: whatever the coefficients (any integers, any quantisation index, either
+    profile), every sample of the decoded component lies in [0, 2^depth − 1] and the component has the
+    requested size whenever the inverse transform produced at least that much -/
+theorem decoded_component_wellformed (depth : Nat) (hd : 1 ≤ depth) (fv fho : VC2.Model.Wavelet.Filter) (ld : Bool) (q : Int)
+    (h w : Nat) (c : VC2.Model.Wavelet.Coeffs) :
+    (∀ y x, 0 ≤ (VC2.Model.Pipeline.decodeComponent depth fv fho ld q h w c).f y x ∧
+            (VC2.Model.Pipeline.decodeComponent depth fv fho ld q h w c).f y x ≤ 2 ^ depth - 1) ∧
+    (VC2.Model.Pipeline.decodeComponent depth fv fho ld q h w c).h ≤ h ∧
+    (VC2.Model.Pipeline.decodeComponent depth fv fho ld q h w c).w ≤ w := by
+  refine ⟨fun y x => output_sample_in_range depth hd _, ?_, ?_⟩
+  · simp only [VC2.Model.Pipeline.decodeComponent, VC2.Model.Wavelet.mapAll, VC2.Model.Wavelet.padRemoval]; omega
+  · simp only [VC2.Model.Pipeline.decodeComponent, VC2.Model.Wavelet.mapAll, VC2.Model.Wavelet.padRemoval]; omega
 
 /-- **one output per picture data unit and per completed fragmented picture**: in the
     stream-structure model a whole picture appends exactly its own number to the decoded list -/
